@@ -60,7 +60,7 @@ def index_component(i):
     return "[%d]" % i
 
 
-_INDEX_RE = re.compile(r"^\[(\d+)\]$")
+_INDEX_RE = re.compile(r"^\[(\d+)\]\Z")
 
 
 def enum_paths(doc):
